@@ -93,7 +93,14 @@ def vacuity(ex):
         s.add(a)
     r = s.check()
     res.append(('assumptions-consistent', str(r)))
+    s.push()
     s.add(ex.normal_guard)
     r2 = s.check()
-    res.append(('normal-exit-reachable', str(r2)))
+    s.pop()
+    if r2 == z3.unsat and getattr(ex, 'allows_raises', False) and ex.raise_guards:
+        s.add(z3.Or(*ex.raise_guards))
+        r2 = s.check()
+        res.append(('declared-exceptional-exit-reachable', str(r2)))
+    else:
+        res.append(('normal-exit-reachable', str(r2)))
     return res
